@@ -117,7 +117,8 @@ pub enum FOp {
     LockViaPm { user: u8, lp: u8, amount: u64, dur: u64, id: Option<u8> },
     Claim { user: u8, until: Until },
     Advance(Adv),
-    /// farm manager UpdateConfig: 0 penalty, 1 fee, 2 expiration, 3 max farms (+1), 4 by a stranger, 5 with funds
+    /// farm manager UpdateConfig: 0 penalty, 1 fee, 2 expiration, 3 max farms (+1), 4 by a stranger, 5 with funds,
+    /// 6 maximum unlocking duration, 7 minimum unlocking duration (for new positions)
     Config { which: u8, value: u32 },
     /// other invalid messages
     Bad(u8, u8),
@@ -252,13 +253,13 @@ pub fn op_strat(w: FWeights) -> impl Strategy<Value = FOp> {
         ),
         (
             w.lock_pm,
-            (user(), 0u8..3, 1000u64..1_000_000, dur_strat(), proptest::option::weighted(0.5, 0u8..6))
+            (user(), 0u8..3, 1000u64..1_000_000, dur_strat(), proptest::option::weighted(0.5, prop_oneof![4 => 0u8..6, 1 => 6u8..9]))
                 .prop_map(|(user, lp, amount, dur, id)| FOp::LockViaPm { user, lp, amount, dur, id })
                 .boxed(),
         ),
         (w.claim, (user(), until_strat()).prop_map(|(user, until)| FOp::Claim { user, until }).boxed()),
         (w.advance, adv_strat().prop_map(FOp::Advance).boxed()),
-        (w.config, (0u8..6, any::<u32>()).prop_map(|(which, value)| FOp::Config { which, value }).boxed()),
+        (w.config, (0u8..8, any::<u32>()).prop_map(|(which, value)| FOp::Config { which, value }).boxed()),
         (w.bad, (0u8..8, 0u8..4).prop_map(|(a, b)| FOp::Bad(a, b)).boxed()),
         (
             if w.open > 0 && w.expand_pos > 0 { CHURN_WEIGHT } else { 0 },
